@@ -731,6 +731,12 @@ pub(crate) fn twist_point_add_full(p1: &TwistPoint, p2: &TwistPoint) -> TwistPoi
     }
 }
 
+/// Verification wrapper: 384-byte encoding of the library's own pairing value e(p, q).
+#[cfg(gm_rs_verif)]
+pub fn verif_pairing_bytes(q: &TwistPoint, p: &Point) -> Vec<u8> {
+    sm9_u256_pairing(q, p).to_bytes_be()
+}
+
 pub(crate) fn sm9_u256_pairing(q: &TwistPoint, p: &Point) -> Fp12 {
     let abits: Vec<char> = "00100000000000000000000000000000000000010000101100020200101000020"
         .chars()
